@@ -1,7 +1,16 @@
-/- C02 — first engine facts; more below as they land. -/
-import Stab.Lemmas.EngineBasic
+/-
+  C02 — Redelivery and reordering never change the result or repeat finished work.
+
+  Engine model facts that hold in ANY state, i.e. for every delivery order and every redelivery:
+  the status guards and the processed-mark that make duplicates inert.  Outcome determinism over whole runs
+  (final statuses equal the FIFO run's) is validated by the schedule differential, not proved (it needs the
+  driver invariant G2, see DESIGN.md).
+-/
+import Stab.Lemmas.EngineClaim
+
 namespace Stab.Props.C02
 open Stab Stab.Engine
+
 /-- RunTask executes the task only if the durable task status is RUNNING. -/
 theorem run_requires_running (c : Cfg) (s : State) (id i t a : Nat)
     (h : (hRunTask c s id i t a).2 = true) : ((s.stage i).tasks.getD t default).status = .running := by
@@ -11,4 +20,74 @@ theorem run_requires_running (c : Cfg) (s : State) (id i t a : Nat)
   have : (((s.stage i).tasks.getD t default).status != Status.running) = true := by simpa using hne
   simp only [this, ↓reduceIte] at h
   exact absurd h (by decide)
+
+/-- **A message whose processed mark is durable is never handled again**: delivering it only removes the row; no
+    stage, task or workflow row changes, nothing is pushed, no task runs. -/
+theorem processed_message_is_only_acked (c : Cfg) (s : State) (id : Nat) (hp : s.processed.contains id = true) :
+    step c s (.deliver id) = s ∨ step c s (.deliver id) = ackRow (claimRow s id) id := by
+  simp only [step]
+  split
+  · exact Or.inl rfl
+  · rename_i row0 hf
+    have hid : row0.id = id := by
+      have := List.find?_some hf
+      simpa using this
+    right
+    subst hid
+    have hp' : (claimRow s row0.id).processed.contains row0.id = true := by simpa using hp
+    unfold deliverRow
+    simp only [hp', ↓reduceIte]
+
+theorem processResult_marks (c : Cfg) (st : StageSt) (id i t n : Nat) (oc : Outcome) :
+    ∀ txn ∈ processResult c st id i t n oc, Eff.mark id ∈ txn := by
+  unfold processResult
+  cases oc <;> simp only [] <;> (repeat' split) <;> simp
+
+/-- every commit of a RunTask that executed the task carries the processed mark of that RunTask message — the result
+    commits always did, the polling / transient re-queue commits do since fix F12 — so a redelivery of that RunTask can
+    never execute the task again (`processed_message_is_only_acked`) -/
+theorem runTask_commit_carries_mark (c : Cfg) (s : State) (id i t a : Nat) :
+    ∀ txn ∈ (hRunTask c s id i t a).1, Eff.mark id ∈ txn := by
+  unfold hRunTask
+  simp only []
+  (repeat' split)
+  all_goals first | exact processResult_marks _ _ _ _ _ _ _ | simp
+
+/-- **Each stage is started at most once per loop iteration**: a stage leaves NOT_STARTED for RUNNING only through
+    its own StartStage message handled in a READY state (any state, any other message: impossible); once RUNNING, a
+    further StartStage finds `status ≠ NOT_STARTED` and writes nothing unless the stage is an unplanned zombie. -/
+theorem started_only_by_own_startStage (c : Cfg) (s : State) (row : Row) (i : Nat) (e : Eff)
+    (he : e ∈ (handle c s row).1.flatten) (hc : Claims s i e) : ∃ r, row.msg = .startStage i r :=
+  let ⟨r, hr, _⟩ := only_startStage_claims c s row i e he hc
+  ⟨r, hr⟩
+
+theorem startStage_on_planned_running_stage_is_inert (c : Cfg) (s : State) (id i r : Nat)
+    (hrun : (s.stage i).status = .running) (htasks : (s.stage i).tasks ≠ []) :
+    ∀ txn ∈ hStartStage c s id i r, ∀ e ∈ txn, ∀ j new, e ≠ .setStage j new := by
+  intro txn htxn e he j new
+  unfold hStartStage startIfReady at htxn
+  simp only [] at htxn
+  have hne : (s.stage i).tasks.isEmpty = false := by
+    cases h : (s.stage i).tasks with
+    | nil => exact absurd h htasks
+    | cons _ _ => rfl
+  (repeat' split at htxn) <;> simp_all
+
+/-- CompleteTask / StartTask are guarded by the durable task status: a duplicate or stale one only marks itself -/
+theorem completeTask_on_non_running_task_is_inert (c : Cfg) (s : State) (id i t : Nat) (st : Status)
+    (h : ((s.stage i).tasks.getD t default).status ≠ .running) : hCompleteTask c s id i t st = [[.mark id]] := by
+  simp only [List.getD_eq_getElem?_getD] at h
+  simp [hCompleteTask, h]
+
+theorem startTask_on_started_task_is_inert (c : Cfg) (s : State) (id i t : Nat)
+    (h : ((s.stage i).tasks.getD t default).status ≠ .notStarted) : hStartTask c s id i t = [[.mark id]] := by
+  simp only [List.getD_eq_getElem?_getD] at h
+  simp [hStartTask, h]
+
+/-- CompleteStage acts only on a RUNNING stage: on a completed, continuable one it writes and pushes nothing -/
+theorem completeStage_on_finished_stage_is_inert (c : Cfg) (s : State) (id i : Nat)
+    (h1 : (s.stage i).status ≠ .running) (h2 : (s.stage i).status ≠ .notStarted) (h3 : (s.stage i).status.isHalt = false) :
+    hCompleteStage c s id i = [] := by
+  simp [hCompleteStage, h1, h2, h3]
+
 end Stab.Props.C02
